@@ -71,8 +71,9 @@ type ExprObject struct {
 }
 
 type ObjectKeyValue struct {
-	Key   string
-	Value Expr
+	Key      string
+	KeyToken Token
+	Value    Expr
 }
 
 type ExprUnary struct {
